@@ -120,6 +120,30 @@ def f_html_unescape(it, s):
 _lib.UF_ORACLES.setdefault("html_unescape", lambda s: html.unescape(s))
 
 
+import unicodedata as _unicodedata
+
+
+@function(_unicodedata.normalize)
+def f_unicodedata_normalize(it, form, s):
+    """unicodedata.normalize: uninterpreted function of (form, text) — deliberately WITHOUT any fact about the markup
+    projection: compatibility normalisation (NFKC/NFKD) folds e.g. U+FF1C FULLWIDTH LESS-THAN SIGN into '<'."""
+    form, s = it.resolve(form), it.resolve(s)
+    fc = form.concrete() if isinstance(form, SStr) else None
+    if fc is None or not isinstance(s, SStr):
+        raise Unsupported("unicodedata.normalize with a symbolic form / non-str")
+    c = s.concrete()
+    if c is not None:
+        return lift(_unicodedata.normalize(fc, c))
+    it.ex.note("lib", f"unicodedata.normalize({fc!r}, s) (uninterpreted, no fact)")
+    return SStr(uf(f"unicodedata_normalize_{fc}", _S, _S)(s.t))
+
+
+for _form in ("NFC", "NFD", "NFKC", "NFKD"):
+    _lib.UF_ORACLES.setdefault(f"unicodedata_normalize_{_form}", (lambda s, _f=_form: _unicodedata.normalize(_f, s)))
+for _err in ("xmlcharrefreplace", "replace", "ignore", "backslashreplace"):
+    _lib.UF_ORACLES.setdefault(f"encode_ascii_{_err}", (lambda s, _e=_err: s.encode("ascii", _e).decode("latin-1")))
+
+
 @function(textwrap.dedent)
 def f_dedent(it, s):
     s = it.resolve(s)
@@ -202,6 +226,11 @@ def _str_encode_proj(it, s, *a, **k):
         if enc in ("utf-8", "utf8"):
             it.ex.assume(_h()(r.t) == mproj(s.t, it.ex.assume))
             it.ex.note("assumed", "UTF-8 encoding (any error handler among strict/replace/surrogateescape) keeps ASCII characters and maps every other character to bytes >= 0x80 or '?' (markup projection unchanged)")
+        elif enc == "ascii":
+            err = a[1].concrete() if len(a) > 1 else (k["errors"].concrete() if "errors" in k else "strict")
+            if err in ("xmlcharrefreplace", "replace", "ignore", "backslashreplace", "strict"):
+                it.ex.assume(_h()(r.t) == mproj(s.t, it.ex.assume))
+                it.ex.note("assumed", "ASCII encoding keeps ASCII characters; the error handlers write '&#N;', '?', nothing or '\\uXXXX' for the others (markup projection unchanged)")
     return r
 
 
